@@ -122,6 +122,8 @@ example : J (pre ++ [{ actor := "m", op := .seteuidInt 5, res := some (.err .bad
 example : J (pre ++ [{ actor := "m", op := .load ⟨"u1", "b"⟩, creations := [mk "u1b" "/c20/u1/b" (.str "u1") (some "u1") none], snap := some [M, A0, B0, ob "u1b" (some "u1") (some "Root")] }]) ≠ [] := by decide
 -- the announced object is missing from the snapshot
 example : J (pre ++ [{ actor := "m", op := .load ⟨"u1", "b"⟩, creations := [mk "u1b" "/c20/u1/b" (.str "u1") (some "u1") none], snap := some [M, A0, B0] }]) ≠ [] := by decide
+-- the same id twice in a snapshot
+example : J (pre ++ [{ actor := "m", op := .seteuidInt 5, res := some (.err .badArg), snap := some [M, A0, B0, ob "u1a" (some "u1") (some "Root")] }]) ≠ [] := by decide
 -- the driver crashed / printed no snapshot
 example : J (pre ++ [{ actor := "m", op := .seteuidInt 0, crash := true }]) ≠ [] := by decide
 example : J (pre ++ [{ actor := "m", op := .seteuidInt 5, res := some (.err .badArg) }]) ≠ [] := by decide
